@@ -1,5 +1,13 @@
 package main
 
+import (
+	"fmt"
+	"go/token"
+	"strings"
+
+	"golang.org/x/tools/go/ssa"
+)
+
 func init() {
 	register(&property{
 		ID: "C12",
@@ -10,9 +18,11 @@ func init() {
 			Assumptions: []string{"x/crypto ssh.Unmarshal/ParsePublicKey and agent.ServeAgent do not panic on arbitrary bytes", "runtime out-of-memory below the 16 MiB bound is out of scope"},
 			Trusted:     []string{"go/packages", "go/types", "go/ssa", "callgraph/vta", "golang.org/x/crypto/ssh"},
 			RuleDoc: map[string]string{
-				"R1.bounds": "index/slice/type-assert/panic obligations on the request path",
-				"R1.nil":    "use-before-error-check and json-null pointer obligations on the request path",
-				"R4.codes":  "every code of the delegation arm is a request code that x/crypto's agent server handles (constants read from its source)",
+				"R1.bounds":  "index/slice/type-assert/panic obligations on the request path",
+				"R1.nil":     "use-before-error-check and json-null pointer obligations on the request path",
+				"R2.framing": "frame buffer allocated only under declared length <= 16 MiB; write refuses longer data",
+				"R3.respond": "exactly one response per loop iteration on every path; non-nil error on every exit but clean EOF; no goroutines",
+				"R4.codes":   "every code of the delegation arm is a request code that x/crypto's agent server handles (constants read from its source)",
 			},
 		},
 		Run: runC12,
@@ -58,4 +68,116 @@ func runC12(c *Ctx) {
 	reportSites(c, "R1.nil", w.UseBeforeErrCheck(fns))
 	reportSites(c, "R1.nil", w.JSONNullPointer(fns))
 	tablesC12(c)
+	framingRules(c, "R2.framing")
+	c12RespondOnce(c)
+}
+
+// c12RespondOnce: on every path of one loop iteration exactly one response is produced; paths that leave the loop
+// carry a certainly-non-nil error, except the clean end of stream.
+func c12RespondOnce(c *Ctx) {
+	w := c.w
+	fn := w.Func(yubiPkg, "ServeAgent")
+	c.Saw(fn)
+	f := w.Facts(fn)
+	// loop head: the block holding the framed read of the served connection
+	var read *ssa.Call
+	for _, call := range callsIn(fn) {
+		if cv, ok := call.(*ssa.Call); ok {
+			if callee := cv.Call.StaticCallee(); callee != nil && callee.Name() == "read" && w.InRepo(callee) && w.Expr(cv.Call.Args[0]) == "p1" {
+				read = cv
+			}
+		}
+	}
+	if read == nil {
+		c.Unresolved("R3.respond", "framed read of the served connection in ServeAgent")
+		return
+	}
+	head := read.Block()
+	isResponse := func(ins ssa.Instruction) bool {
+		cv, ok := ins.(*ssa.Call)
+		if !ok {
+			return false
+		}
+		if callee := cv.Call.StaticCallee(); callee != nil {
+			if callee.Name() == "write" && w.InRepo(callee) && w.Expr(cv.Call.Args[0]) == "p1" {
+				return true
+			}
+			if fnName(callee) == "golang.org/x/crypto/ssh/agent.ServeAgent" {
+				// the delegation writes one reply per request through the forwarder, which must wrap the served connection
+				return strings.Contains(w.Expr(cv.Call.Args[1]), "newForwarder>(") && strings.HasSuffix(w.Expr(cv.Call.Args[1]), ",p1)")
+			}
+		}
+		return false
+	}
+	for _, call := range callsIn(fn) {
+		if _, isGo := call.(*ssa.Go); isGo {
+			c.Bad("R3.respond", "ServeAgent|no goroutine per request", w.Pos(call.Pos()), "requests are handled on other goroutines: replies can be written out of order")
+		}
+	}
+	// enumerate acyclic paths from head back to head, and from head to returns
+	type state struct {
+		b *ssa.BasicBlock
+		n int
+	}
+	nPaths, nRet := 0, 0
+	bad := map[string]bool{}
+	var dfs func(b *ssa.BasicBlock, n int, seen map[*ssa.BasicBlock]bool, first bool)
+	dfs = func(b *ssa.BasicBlock, n int, seen map[*ssa.BasicBlock]bool, first bool) {
+		if nPaths > 200000 {
+			return
+		}
+		if b == head && !first {
+			nPaths++
+			if n != 1 {
+				bad[fmt.Sprintf("an iteration of the request loop produces %d responses", n)] = true
+			}
+			return
+		}
+		if seen[b] {
+			return
+		}
+		seen[b] = true
+		defer delete(seen, b)
+		for _, ins := range b.Instrs {
+			if isResponse(ins) {
+				n++
+			}
+			if r, ok := ins.(*ssa.Return); ok {
+				nRet++
+				nPaths++
+				// clean EOF -> nil; anything else non-nil
+				eof := f.Any(b, func(l Lit) bool {
+					bin, ok := l.V.(*ssa.BinOp)
+					return ok && bin.Op == token.EQL && l.Pol && strings.HasSuffix(w.Expr(bin.Y), "io.EOF") && bin.X == extractOf(read, 1)
+				})
+				for _, lf := range w.Leaves(r.Results[0], r) {
+					if eof {
+						if !isNilConst(lf.Val) {
+							bad["a clean end of stream does not end service with nil"] = true
+						}
+						continue
+					}
+					if !w.NonNil(lf.Val, lf.Facts) {
+						bad["service can end with a nil error other than on a clean end of stream ("+w.Pos(r.Pos())+")"] = true
+					}
+				}
+				if n > 1 {
+					bad["a request is answered and then the connection is ended with more than one response"] = true
+				}
+				return
+			}
+		}
+		for _, s := range b.Succs {
+			dfs(s, n, seen, false)
+		}
+	}
+	dfs(head, 0, map[*ssa.BasicBlock]bool{}, true)
+	for msg := range bad {
+		c.Bad("R3.respond", "ServeAgent|"+msg, w.FnPos(fn), msg)
+	}
+	if len(bad) == 0 {
+		c.Ok("R3.respond", "ServeAgent|exactly one response per request on every path", w.FnPos(fn), fmt.Sprintf("%d paths of one loop iteration enumerated, %d of them leave the loop", nPaths, nRet))
+	}
+	c.Floor("R3.respond", nPaths, 20, "paths through one iteration of the request loop")
+	c.Extra["serve_paths"] = nPaths
 }
